@@ -19,7 +19,8 @@ elab "#audit_module " m:ident : command => do
     -- auto-generated equation / injectivity / sizeOf lemmas are not property theorems
     let last := name.getString!
     if last.startsWith "eq_" || last == "injEq" || last == "inj" || last == "sizeOf_spec"
-        || last == "congr_simp" || last.startsWith "match_" || last == "eq_def" then continue
+        || last == "congr_simp" || last.startsWith "match_" || last == "eq_def"
+        || last == "brecOn" || last == "binductionOn" || last == "below" || last == "recOn" || last == "casesOn" then continue
     match info with
     | .thmInfo _ =>
       let axs ← Lean.collectAxioms name
